@@ -3,6 +3,7 @@ from .. import common, progcheck, solve
 from ..framework import Exploration, Violation
 from ..gen import progs
 from ..propsbase import *
+import random
 
 ASSUMPTIONS = ["witness-space search over the REAL constraint system recorded by the snarkjs backend run over the small prime 97 "
                "(snarkjsbackend.snarkjsp assigned in the worker) at bitlengths 2..5 (2^(n+1) <= 97): every wire the operation "
@@ -14,6 +15,10 @@ ASSUMPTIONS = ["witness-space search over the REAL constraint system recorded by
                "selected value; search over p = 97 with the operands fixed AND the wires of the branch function that was not taken kept at their "
                "recorded values (its gadgets are relaxed by the false guard by design); model-backed at level S (the model reads the instructions "
                "as guarded(c) region, guarded(~c) region, selection)",
+               "gadgets inside TAKEN guarded() regions: one or two `guarded(c)` regions whose conditions are secret inputs of value 1 around the same "
+               "gadgets as in the branch functions (gen_guarded_live_case): operand and condition wires fixed, every wire created inside the "
+               "region unknown (conjunction wire, bit wires, the dummy / slack wires that relax guarded constraints): the result is determined; "
+               "signature instr `guarded(1):<operator>`; model-backed at level S",
                "WIDE words over the real field BN254 (bitlength 72, 100, 128, 250, and to_bits(n) with n above the bitlength; operands below 2^64 "
                "and up to the width; to_bits()[k], to_bits/from_bits round trip, >> constant, &, |, ^ of secrets, <, <=, >, >=, check_positive): "
                "no enumeration is possible there; the oracle is a forgery search (harness/solve.py forge): from the honest witness change one "
@@ -136,6 +141,30 @@ def gen_thunk_case(rnd, cid):
     return c
 
 
+def gen_guarded_live_case(rnd, cid):
+    """gadgets executed inside `guarded(c)` regions whose conditions are SECRETS OF VALUE 1 (one or two regions, conditions given as
+    inputs): the region is taken, so its gadgets must determine their results exactly as outside a region.  The search fixes the operand
+    and condition wires and leaves EVERY wire created inside the region to the prover (conjunction wire, bit wires, the dummy / slack
+    wires that relax a guarded constraint); target = the result of the last gadget (a fresh value)"""
+    cfg = {"p": P, "bl": rnd.choice([2, 3, 3, 4]), "res": 0, "ign": 0}
+    bl = cfg["bl"]; q = 1 << max(bl - 2, 1)
+    b = progs.Builder(rnd, cfg)
+    mk = lambda v: b.emit(f"mk {rnd.choice(['priv', 'priv', 'pub'])} r{b.int_lit(v)}", "L")
+    vx = rnd.randrange(0, q); vy = rnd.randrange(1, q)
+    x = mk(vx); y = mk(vy)
+    depth = rnd.choice([1, 1, 1, 2])
+    gs = [b.emit(f"mk {rnd.choice(['priv', 'privb', 'privb'])} r{b.int_lit(1)}", "B") for _ in range(depth)]
+    for g in gs:
+        b.emit(f"genter r{g}", "N")
+    used = []
+    if rnd.random() < 0.3:
+        progs.thunk_gadget(rnd, b, x, y, vx, vy, bl, used, C02_THUNK_GADGETS)      # an earlier gadget of the same region
+    rr = progs.thunk_gadget(rnd, b, x, y, vx, vy, bl, used, C02_THUNK_GADGETS)
+    for g in gs:
+        b.emit("gleave", "N")
+    return progs.Case(cid, cfg, b.ins, {"shape": "guarded-live", "op": "+".join(used), "kinds": f"depth{depth}", "target": rr})
+
+
 def dead_branch_wires(r):
     """private wires allocated inside the branch function that was NOT taken (indices)"""
     cv = r.case.meta["cond"]
@@ -229,6 +258,8 @@ def explore(ctx, extended=False, focus=None):
     cases = corpus_cases("C02") + [gen_case(ctx.rnd, f"c02_{i}") for i in range(n)]
     cases += [gen_thunk_case(ctx.rnd, f"c02t_{i}") for i in range(n // 5)]
     cases += [gen_wide_case(ctx.rnd, f"c02w_{i}") for i in range(n // 15)]
+    grnd = random.Random(ctx.seed * 4261 + 5 + (1 if extended else 0))             # own stream: the cases above stay what they were
+    cases += [gen_guarded_live_case(grnd, f"c02g_{i}") for i in range(n // 6)]
     recs = execute_all(cases)
     jobs = []; jobrecs = []
     fjobs = []; fjobrecs = []
@@ -307,6 +338,10 @@ def explore(ctx, extended=False, focus=None):
         ex.count("search:complete" if complete else "search:limit")
         ex.distinct.add((r.case.meta["op"], r.case.meta["kinds"], r.case.cfg["bl"], tuple(r.priv[i] for i in sorted(inputs)), tuple(r.pub), r.case.meta.get("history", False)))
         sig = instr_sig(r.case, r.regs, t)
+        if r.case.meta.get("shape") == "guarded-live":
+            # a gadget inside a TAKEN guarded() region: classified apart from the same operator outside regions
+            sig["instr"] = "guarded(1):" + sig["instr"]; sig["mode"] = "taken-region"
+            ex.count(f"guarded-live:{r.case.meta['kinds']}:{r.case.instrs[t].split()[1] if len(r.case.instrs[t].split()) > 1 else '?'}")
         if r.case.instrs[t].startswith("bin truediv"):
             # finding C02-truediv-zero-mod-p: a secret divisor whose integer value is a nonzero multiple of p
             import re as _re
